@@ -68,22 +68,9 @@ pub fn account(buf: &[u8], res: &[NetflowPacket], allowed: &HashSet<u16>) -> Res
                 if e.remaining != buf[off..] {
                     return Err(div("acct", "error-remaining", format!("error.remaining has {} bytes, unconsumed suffix has {} (offset {})", e.remaining.len(), buf.len() - off, off)));
                 }
-                match &e.error {
-                    NetflowParseError::Partial(pp) => {
-                        if buf.len() - off < 2 || pp.version != be16(buf, off) || pp.remaining != buf[off + 2..] {
-                            return Err(div("acct", "partial-payload", format!("Partial{{version {}, {} bytes}} at offset {}", pp.version, pp.remaining.len(), off)));
-                        }
-                    }
-                    NetflowParseError::UnknownVersion(b) => {
-                        if buf.len() - off < 2 || b[..] != buf[off + 2..] {
-                            return Err(div("acct", "unknown-version-payload", format!("UnknownVersion payload {} bytes at offset {}", b.len(), off)));
-                        }
-                    }
-                    NetflowParseError::UnallowedVersion(_) => {
-                        return Err(div("acct", "unallowed-reported", "UnallowedVersion reported as an element".to_string()));
-                    }
-                    NetflowParseError::Incomplete(_) => {}
-                }
+                // (The payloads inside the error value - PartialParse.remaining, UnknownVersion -
+                // are not part of C02's statement; C12 checks the latter where it states it. Whether a
+                // disallowed version may be *reported* at all is C12's business too.)
                 return Ok(Acct { spans, end_offset: off, ending: Ending::Error });
             }
             _ => {
